@@ -108,23 +108,24 @@ def sub34 (a b : Dec) : Option Dec :=
   let d := sub a b
   if (roundHalfUp basePrecision d).2 then none else some d
 
-/-- `BaseContext.Ceil`: `Modf`, then `Add(d, d, 1)` rounded to 34 digits when the fraction is
-positive.  The Inexact condition is discarded by the caller, so the result may differ from
-the true ceiling when the integer part has more than 34 digits. -/
-def ceil34 (d : Dec) : Dec :=
-  if isInt d then ofInt (trunc d)
-  else if 0 < d.coeff then (roundHalfUp basePrecision (ofInt (trunc d + 1))).1
-  else ofInt (trunc d)
+/-- an integer rounded to the base precision; `none` = the Inexact condition -/
+def roundInt34 (z : Int) : Option Dec :=
+  let r := roundHalfUp basePrecision (ofInt z)
+  if r.2 then none else some r.1
+
+/-- `BaseContext.Ceil`: `Modf`, then `Add(d, d, 1)` at precision 34 when the fraction is positive.
+`none` = the Add was Inexact (the integer part does not fit 34 digits); `SimplifyBounds` then
+skips the simplification. -/
+def ceil34? (d : Dec) : Option Dec :=
+  if isInt d then some (ofInt (trunc d))
+  else if 0 < d.coeff then roundInt34 (trunc d + 1)
+  else some (ofInt (trunc d))
 
 /-- `BaseContext.Floor`, dually. -/
-def floor34 (d : Dec) : Dec :=
-  if isInt d then ofInt (trunc d)
-  else if d.coeff < 0 then (roundHalfUp basePrecision (ofInt (trunc d - 1))).1
-  else ofInt (trunc d)
-
-/-- the integer part fits the base precision, so `ceil34`/`floor34` are exact -/
-def fits34 (d : Dec) : Bool :=
-  isInt d || decide ((trunc d).natAbs + 1 < 10 ^ basePrecision)
+def floor34? (d : Dec) : Option Dec :=
+  if isInt d then some (ofInt (trunc d))
+  else if d.coeff < 0 then roundInt34 (trunc d - 1)
+  else some (ofInt (trunc d))
 
 /-! ### parsing / printing for the driver protocol: `<coeff>e<exp>` -/
 
